@@ -389,8 +389,14 @@ RECURSIVE HasFlat(_)
 HasFlat(M) == \E i \in DOMAIN M.fields : Len(M.fields[i].gopath) > 1 \/ (M.fields[i].msg # NoMsg /\ HasFlat(SubOf(M.fields[i])))
 Unexpected(c, M, pth) == [c |-> c, p |-> pth, sig |-> "unexpected diagnostic" \o (IF HasFlat(M) THEN " (message has /flat fields)" ELSE "")]
 
-HasDiag(dg, kind, path) == \E i \in DOMAIN dg : dg[i].kind = kind /\ dg[i].path = path /\ dg[i].sev = "error"
-CountDiag(dg, kind, path) == Cardinality({i \in DOMAIN dg : dg[i].kind = kind /\ dg[i].path = path})
+\* an error diagnostic of the given kind for the given path.  Kinds are recognised by the CURRENT wording of the shared
+\* diagnostics code; a diagnostic worded otherwise (kind "other") still counts when it names the path: the properties
+\* ask for "an error diagnostic that names the field's path", not for a text.
+IsDiag(d, kind, path) ==
+  \/ d.kind = kind /\ d.path = path
+  \/ d.kind = "other" /\ \E j \in DOMAIN d.paths : d.paths[j] = path
+HasDiag(dg, kind, path) == \E i \in DOMAIN dg : dg[i].sev = "error" /\ IsDiag(dg[i], kind, path)
+CountDiag(dg, kind, path) == Cardinality({i \in DOMAIN dg : IsDiag(dg[i], kind, path)})
 
 \* fields whose attribute is missing at a level the converter reaches
 RECURSIVE MissingFrom(_, _)
